@@ -11,7 +11,8 @@ in the ModelProto, or the error class.
 
 `compileGraph` threads one flat `Scope` through all nested graphs, as the code does; bodies get the
 prefix `<owner name>_<attr>__`. Every change to the scope goes through `Scope.update`,
-`Space.maybeEnum` and `Space.reserve`; the run also records these calls (`TraceOp`) so that the
+`Space.maybeEnum` and `Space.reserve` (values in the var namespace, inlined node names in the
+node namespace); the run also records these calls (`TraceOp`) so that the
 driver can confirm, on every case, that replaying the trace from the empty scope gives the same final
 scope (`Props/C02.lean` proves the invariant for every replay).
 Core Lean only.
@@ -38,6 +39,8 @@ inductive TraceOp where
   | update (pfx : String) (id : Nat) (opId : String) (outs : List OutVar)
   | maybeEnumVar (base : String)
   | reserveVar (n : String)
+  | maybeEnumNode (base : String)
+  | reserveNode (n : String)
 deriving Repr
 
 structure St where
@@ -68,6 +71,16 @@ def reservePrefixed (st : St) (nodeName name : String) : M (String × St) :=
   match var1.reserve n with
   | .ok var2 => .ok (n, { sc := { st.sc with var := var2 },
                           trace := .reserveVar n :: .maybeEnumVar base :: st.trace })
+  | .error e => .error e
+
+/-- the node-name counterpart (inlined node names are reserved in the node namespace) -/
+def reservePrefixedNode (st : St) (nodeName name : String) : M (String × St) :=
+  if name = "" then .ok ("", st) else
+  let base := nodeName ++ "__" ++ name
+  let (n, node1) := st.sc.node.maybeEnum base
+  match node1.reserve n with
+  | .ok node2 => .ok (n, { sc := { st.sc with node := node2 },
+                           trace := .reserveNode n :: .maybeEnumNode base :: st.trace })
   | .error e => .error e
 
 /-- renaming state of one `_Inline.to_onnx` call -/
@@ -106,7 +119,7 @@ def applyNodeRename (nodeName : String) (r : Ren) (name : String) : M (String ×
   match r.memoN.find? (·.1 == name) with
   | some (_, n) => .ok (n, r)
   | none =>
-    match reservePrefixed r.st nodeName name with
+    match reservePrefixedNode r.st nodeName name with
     | .ok (n, st') => .ok (n, { r with st := st', memoN := (name, n) :: r.memoN })
     | .error e => .error e
 
@@ -230,6 +243,8 @@ def replayOp (sc : Scope) : TraceOp → M Scope
   | .update pfx id opId outs => (sc.update pfx id opId outs).map (·.2)
   | .maybeEnumVar b => .ok { sc with var := (sc.var.maybeEnum b).2 }
   | .reserveVar n => (sc.var.reserve n).map (fun v => { sc with var := v })
+  | .maybeEnumNode b => .ok { sc with node := (sc.node.maybeEnum b).2 }
+  | .reserveNode n => (sc.node.reserve n).map (fun v => { sc with node := v })
 
 def replay : Scope → List TraceOp → M Scope
   | sc, [] => .ok sc
